@@ -143,7 +143,9 @@ CONTEXT_FLAGS = {"show_error_code_links": "--show-error-code-links", "hide_error
                  "strict_equality": "--strict-equality", "strict_equality_for_none": "--strict-equality-for-none",
                  "report_deprecated_as_note": "--report-deprecated-as-note"}
 # contexts that are not themselves toggled
-CTX_ONLY = {"enable_deprecated": "--enable-error-code=deprecated"}
+CTX_ONLY = {"enable_deprecated": "--enable-error-code=deprecated",
+            # the validity key must still be compared when the version check is skipped
+            "skip_version_check": "--skip-version-check"}
 # what the (slow) typeshed witness is used for
 TYPESHED_OPTS = {"allow_redefinition_old", "extra_checks", "implicit_reexport", "enable_incomplete_feature", "check_unreachable", "old_type_inference",
                  "strict_optional", "warn_unreachable", "allow_redefinition", "strict_equality", "local_partial_types", "strict_bytes"}
